@@ -91,6 +91,10 @@ S(id="OSVLO.history.native", props=["C19"], spec="native/osvlo_enum.c", mode="N"
   params={"quick": {"LEN": 5}, "thorough": {"LEN": 6}}, bound="every sequence of <= 5 (thorough 6) of 9 operations on an os_t (segment lengths 13/16/24) and a vlo_t (initial lengths 1/16/24), realloc always moves",
   functions=["OS_* macros", "_OS_expand_memory", "_OS_add_string_function", "VLO_* macros", "_VLO_expand_memory", "_VLO_tailor_function", "_VLO_add_string_function"],
   what="history-level statements: finished objects of an object stack never move or change, the top object and a VLO hold exactly the bytes appended minus those shortened, wherever they are reallocated")
+S(id="A.fail.native", props=["C17"], spec="native/alloc_fail_enum.c", mode="N", sanitize="undefined", link=["allocate.c", "hashtab.c", "objstack.c", "vlobject.c", "yaep.c"], harness="main", timeout=3000,
+  bound="every k up to the last memory request of: yaep_create_grammar, yaep_parse_grammar, yaep_read_grammar, yaep_parse on three inputs/settings of one expression grammar",
+  functions=["yaep_create_grammar", "yaep_parse_grammar", "yaep_read_grammar", "yaep_parse", "yaep_free_grammar"],
+  what="the k-th memory request of the call fails (libc allocator interposed), for every k: NULL / YAEP_NO_MEMORY, no crash, the object is still usable and can be freed, another object is unaffected")
 S(id="HT.hpn.native", props=["C19"], spec="native/ht_prime.c", mode="N", link=["hashtab.c", "allocate.c"], harness="main",
   params={"quick": {"K": 20000}, "thorough": {"K": 2000000}}, bound="all requested sizes 0..K",
   functions=["higher_prime_number"], what="assumed clause of hpn_assumed_c: result is a prime in (n, 2n+3]")
